@@ -36,6 +36,22 @@ var swaps = map[token.Token][]string{
 	token.AND: {"|"}, token.OR: {"&"}, token.AND_NOT: {"&"},
 }
 
+// identifiers of the same kind that a slip of the hand exchanges
+var siblingIdents = [][]string{
+	{"startSafeOverride", "startUnsafeOverride", "startUnsafe", "startPreRedactable"},
+	{"SafeEscaped", "UnsafeEscaped", "SafeRaw", "PreRedactable"},
+	{"StartS", "EndS"}, {"StartBytes", "EndBytes"}, {"StartLen", "EndLen"},
+	{"overrideSafe", "overrideUnsafe", "noOverride"},
+	{"safeWrapperType", "unsafeWrapperType"},
+	{"redactableStringType", "redactableBytesType"},
+	{"prevMode", "prevOverride"},
+	{"doPrint", "doPrintln"},
+	{"TakeRedactableString", "RedactableString"}, {"TakeRedactableBytes", "RedactableBytes"},
+	{"SafeString", "UnsafeString"}, {"SafeRune", "UnsafeRune"}, {"SafeBytes", "UnsafeBytes"},
+	{"ReStripSensitive", "ReStripMarkers"},
+	{"RedactedS", "EscapeMarkS"},
+}
+
 func main() {
 	repo := flag.String("repo", "/repo", "repository")
 	flag.Parse()
@@ -124,7 +140,35 @@ func main() {
 							}
 						}
 					}
+				case *ast.BlockStmt:
+					// swap two adjacent simple statements
+					for i := 0; i+1 < len(x.List); i++ {
+						a, b := x.List[i], x.List[i+1]
+						simple := func(s ast.Stmt) bool {
+							switch s.(type) {
+							case *ast.ExprStmt, *ast.AssignStmt, *ast.DeferStmt, *ast.IncDecStmt:
+								return true
+							}
+							return false
+						}
+						if simple(a) && simple(b) {
+							ta := string(src[off(a.Pos()):off(a.End())])
+							tb := string(src[off(b.Pos()):off(b.End())])
+							add(name, a, "swap-stmts", a.Pos(), b.End(), tb+"\n"+ta)
+						}
+					}
 				case *ast.Ident:
+					for _, group := range siblingIdents {
+						for _, g := range group {
+							if x.Name == g {
+								for _, o := range group {
+									if o != g {
+										add(name, x, "sibling "+g+"->"+o, x.Pos(), x.End(), o)
+									}
+								}
+							}
+						}
+					}
 					if x.Name == "true" {
 						add(name, x, "true->false", x.Pos(), x.End(), "false")
 					} else if x.Name == "false" {
